@@ -54,7 +54,7 @@ def build_cases(ck, maxk):
         if vecs is None:
             vecs = ["".join(p) for p in itertools.product(VALS, repeat=k)]
             docs = [doc_for(v) for v in vecs]
-        c = {"k": "rule", "id": ck.new_id(), "rule": rule_text(det), "docs": [D(d) for d in docs], "sw": [0],
+        c = {"k": "rule", "id": ck.new_id(), "rule": rule_text(det), "docs": [D(d) for d in docs], "sw": [0, 15],
              "_form": form, "_k": k, "_vecs": vecs, "_exp": [exp(v) for v in vecs], "_docs": docs}
         out.append(c)
 
@@ -96,6 +96,15 @@ def build_cases(ck, maxk):
     add("not_and", 2, dict(ident_defs(2), condition="not X1 and X2"), lambda v: t_and([t_not(v[0]), v[1]]))
     add("and_not", 2, dict(ident_defs(2), condition="X1 and not X2"), lambda v: t_and([v[0], t_not(v[1])]))
     add("or_not", 2, dict(ident_defs(2), condition="X1 or not X2"), lambda v: t_or([v[0], t_not(v[1])]))
+    # negated operands on both sides and negated binary connectives (De Morgan pairs: the tables say
+    # they are NOT interchangeable when an operand is missing)
+    add("not_or_not", 2, dict(ident_defs(2), condition="not X1 or not X2"), lambda v: t_or([t_not(v[0]), t_not(v[1])]))
+    add("not_and_not", 2, dict(ident_defs(2), condition="not X1 and not X2"), lambda v: t_and([t_not(v[0]), t_not(v[1])]))
+    add("not_paren_or", 2, dict(ident_defs(2), condition="not (X1 or X2)"), lambda v: t_not(t_or(v)))
+    add("not_paren_and", 2, dict(ident_defs(2), condition="not (X1 and X2)"), lambda v: t_not(t_and(v)))
+    add("not_or_not_3", 3, dict(ident_defs(3), condition="not X1 or not X2 or not X3"), lambda v: t_or([t_not(x) for x in v]))
+    add("not_and_not_3", 3, dict(ident_defs(3), condition="not X1 and not X2 and not X3"), lambda v: t_and([t_not(x) for x in v]))
+    add("or_not_or", 3, dict(ident_defs(3), condition="X1 or not X2 or X3"), lambda v: t_or([v[0], t_not(v[1]), v[2]]))
     add("and_or_mix", 3, dict(ident_defs(3), condition="X1 and X2 or X3"), lambda v: t_and([v[0], t_or(v[1:])]))
     add("or_and_mix", 3, dict(ident_defs(3), condition="X1 or X2 and X3"), lambda v: t_and([t_or(v[:2]), v[2]]))
 
@@ -133,16 +142,17 @@ def build_cases(ck, maxk):
 
 
 def results_of(line):
+    """-> (load, three-valued results as loaded, results as optimised by default or None)"""
     x = lib.parse_sexp(common.strip_extra(line))
     load = None
-    res = None
+    res = {}
     for el in x[1:]:
         if isinstance(el, list) and el:
             if el[0] == "load":
                 load = el[1]
             if el[0] == "res":
-                res = el[2] if len(el) > 2 else ""
-    return load, res
+                res[int(el[1])] = el[2] if len(el) > 2 else ""
+    return load, res.get(0), res.get(15)
 
 
 def run(ck):
@@ -150,12 +160,12 @@ def run(ck):
     ck.proofs()
     cases = build_cases(ck, 4)
     send = [{k: v for k, v in c.items() if not k.startswith("_")} for c in cases]
-    impl, model, _ = lib.run_cases(send, "C06")
+    impl, model, _ = lib.run_cases(send, "C06", runner_args=["--known"])
     direct_failed = set()
     evals = 0
     nontrivial = set()
     for c in cases:
-        load, res = results_of(impl[c["id"]])
+        load, res, res15 = results_of(impl[c["id"]])
         if load != "ok" or res is None or len(res) != len(c["_vecs"]):
             ck.violation({"property": "C06", "kind": "direct", "what": "rule did not load or evaluate",
                           "rule": c["rule"], "crate": impl[c["id"]][:500]})
@@ -175,6 +185,31 @@ def run(ck):
                                   "rule": c["rule"], "doc": D(doc),
                                   "replay_case": {"k": "rule", "id": 1, "rule": c["rule"], "docs": [D(doc)], "sw": [0]}})
                 direct_failed.add(c["id"])
+        # the same rule as optimised by default: "a rule matches only when the whole condition is true" -- the
+        # verdict must be the table's.  Where a listed class of C01 (D13, D16, D17: negative positions)
+        # accepts the rule for these switches the comparison is left to C01.
+        if c["id"] in direct_failed:
+            continue
+        c15 = common.known_of(model[c["id"]]).get(15, [])
+        if any(k in (13, 16, 17) for k in c15):
+            ck.count("optimised_form_left_to_C01")
+            continue
+        if res15 is None or len(res15) != len(c["_vecs"]):
+            ck.violation({"property": "C06", "kind": "direct", "what": "the rule as optimised by default did not evaluate",
+                          "rule": c["rule"], "crate": impl[c["id"]][:500]})
+            direct_failed.add(c["id"])
+            continue
+        ck.count("optimised_form_compared")
+        for vec, exp, got, doc in zip(c["_vecs"], c["_exp"], res15, c["_docs"]):
+            evals += 1
+            if (got == "t") != (exp == "t"):
+                if c["id"] not in direct_failed and len(direct_failed) < 4:
+                    ck.violation({"property": "C06", "kind": "direct",
+                                  "what": "as optimised by default the rule's verdict differs from the truth table of its connectives",
+                                  "form": c["_form"], "operands": vec, "expected": exp, "crate_optimised": got,
+                                  "rule": c["rule"], "doc": D(doc),
+                                  "replay_case": {"k": "rule", "id": 1, "rule": c["rule"], "docs": [D(doc)], "sw": [15]}})
+                direct_failed.add(c["id"])
     ck.coverage["evaluations"] = evals
     ck.coverage["distinct_nontrivial"] = len(nontrivial)
     ck.coverage["exhaustive"] = True
@@ -185,10 +220,11 @@ def run(ck):
     ck.coverage["rule"] = (
         "operands are steered to true/false/missing by the document (field equal / different / absent); the expected "
         "result is computed by an independent Python table (or: max; and: first non-true; not; all; of n>=1; of 0) and "
-        "compared three-valued (e and Negate(e)). Non-trivial = operand vector not constant (or arity 1); distinct = "
+        "compared three-valued (e and Negate(e)); the same rules as optimised by the default switches must give the "
+        "table's VERDICT (comparison left to C01 where one of its listed classes accepts the rule). Non-trivial = operand vector not constant (or arity 1); distinct = "
         "distinct (form, arity, vector).")
     for c in (cases[3], cases[40], cases[-1]):
-        _, res = results_of(impl[c["id"]])
+        _, res, _ = results_of(impl[c["id"]])
         ck.sample({"form": c["_form"], "rule": c["rule"], "operand_vectors": c["_vecs"][:9], "expected": "".join(c["_exp"][:9]),
                    "crate": (res or "")[:9]})
     common.compare(ck, send, impl, model, "solver connectives", "or_group_spec, and_group_spec, of_pos_spec, forms_agree_*", direct_failed)
